@@ -54,7 +54,10 @@ Lemma in_init_grants j t c : In (j, t, c) (grants (init cf log0)) -> In j (voter
 Proof. simpl. intros H. apply in_map_iff in H. destruct H as [x [E Hx]]. inversion E; subst; auto. Qed.
 
 Lemma in_init_acks j t k : In (j, t, k) (acks (init cf log0)) -> In j (voters cf) /\ t = boot_term /\ k = length log0.
-Proof. simpl. intros H. apply in_map_iff in H. destruct H as [x [E Hx]]. inversion E; subst; auto. Qed.
+Proof.
+  simpl. destruct log0 as [|e0 l0]; [intros []|].
+  intros H. apply in_map_iff in H. destruct H as [x [E Hx]]. inversion E; subst; auto.
+Qed.
 
 Lemma init_inv1 : inv1 (init cf log0).
 Proof.
@@ -101,7 +104,8 @@ Proof.
   - simpl. destruct (list_snoc_cases log0) as [E|[l0 [x E]]]; [now left|right].
     exists (voters cf), boot_term, (length log0). simpl. rewrite upd_same. repeat split; auto.
     + apply majority_all; auto. intros j Hj. apply ackedb_In. exists (length log0). split; auto.
-      simpl. apply in_map_iff. exists j; auto.
+      simpl. rewrite E. destruct (l0 ++ [x]) eqn:E2; [destruct l0; discriminate|]. rewrite <- E2.
+      apply in_map_iff. exists j; auto.
     + rewrite firstn_all. exists l0, x. split; auto. apply Hterm. rewrite E. apply in_or_app. right. now left.
     + now rewrite firstn_all.
   - intros j. simpl. unfold init_node. destruct (_ || _); simpl.
